@@ -26,7 +26,9 @@ MANIFEST = dict(
     technique="Lean 4 proof about the executable model of the hostlist parser (for EVERY text: one equation for the "
               "verdict on a range item with strtoul saturation, iff-characterisations of accepted / invalid / "
               "too-many, refinement of the independent item reader, exact acceptance condition of a group, a token "
-              "and the whole call, counter exact and <= 16384 x text length, fuel sufficiency, explicit buffers) "
+              "and the whole call, accepted <=> the independent whole-text reader Spec.classify finds no problem "
+              "and then the hosts are its expansion, counter exact and <= 16384 x text length, fuel sufficiency, "
+              "explicit buffers) "
               "+ differential correspondence of the real "
               "hostlist.c under ASan/UBSan and per-call resource limits against the compiled model + "
               "classification oracle from the property text",
